@@ -325,15 +325,16 @@ func (r *Reader) initFields() error {
 }
 
 func (r *Reader) getSource(ent *TOCEntry) (_ *TOCEntry, err error) {
-	if ent.Type == "hardlink" {
+	// A chain of hardlinks visits every name at most once; anything longer is a loop.
+	for i := 0; ent.Type == "hardlink"; i++ {
+		if i > len(r.m) {
+			return nil, fmt.Errorf("%q is a hardlink but the chain of linknames loops", ent.Name)
+		}
 		org, ok := r.m[cleanEntryName(ent.LinkName)]
 		if !ok {
 			return nil, fmt.Errorf("%q is a hardlink but the linkname %q isn't found", ent.Name, ent.LinkName)
 		}
-		ent, err = r.getSource(org)
-		if err != nil {
-			return nil, err
-		}
+		ent = org
 	}
 	return ent, nil
 }
